@@ -204,6 +204,23 @@ pub fn session(case: &J, srcs: &[Src]) -> J {
             }
         }
     }
+    // the same source text parsed again (a fresh tree: other node addresses, same nodes): same result
+    for (k, t) in tree_ids.iter().enumerate() {
+        let mut keep = Vec::new();
+        for round in 0..6 {
+            // (earlier trees are kept alive so that the allocator cannot hand out the very same addresses again)
+            let fresh = crate::oracle::parse_source(&srcs[*t].name, &srcs[*t].text);
+            let r = run_once(&file, &fresh, lazy, &globals);
+            if r != isolated[k] {
+                mismatches.push(json!({"what": format!("fresh parse {} of tree {} gives another result than the first parse", round, t + 1), "a": isolated[k], "b": r}));
+                break;
+            }
+            keep.push(fresh);
+            if round % 2 == 1 {
+                keep.remove(0);
+            }
+        }
+    }
     // concurrent threads sharing the file
     let file_ref = &file;
     let globals_json = case["globals"].clone();
